@@ -47,6 +47,9 @@ def required(tier):
         d["op." + op] = 30
     d["op.bfi"] = 5
     d["failed_builds.conflicts"] = 20
+    d["build_history.with_failure.unproductive"] = 30
+    d["build_history.with_failure.stream"] = 10
+    d["build_history.failure_and_success"] = 10
     d["raised.in_action"] = 50
     d["raised.in_recognizer"] = 50
     return d
@@ -190,8 +193,85 @@ def run(ctx):
         mon.uninstall()
 
 
+BUILD_KINDS = [
+    ["Parser", {}],
+    ["GLRParser", {}],
+    ["Parser", {"tables": "SLR"}],
+    ["GLRParser", {"tables": "SLR"}],
+    ["Parser", {"prefer_shifts": False, "prefer_shifts_over_empty": False}],
+    ["GLRParser", {"prefer_shifts": True, "prefer_shifts_over_empty": True}],
+]
+
+
+def build_outcome(pg, cls, kw, probes):
+    try:
+        p = build_with(pg, None, cls, kw)
+    except (pgx.CaseTimeout, pgx.BudgetExceeded):
+        raise
+    except Exception as e:  # noqa: BLE001
+        return ["ctor", type(e).__name__, str(e)[:300]]
+    return ["ok", [canon("glr" if cls == "GLRParser" else "lr", p, x) for x in probes]]
+
+
+def failing_builds(ctx, g, text, probes, why):
+    """Histories of constructions on ONE Grammar object, some of which fail
+    (conflicts, unproductive rules): every construction must end as the same
+    construction on a Grammar object of its own."""
+    rng = ctx.rng
+    seq = [rng.choice(BUILD_KINDS) for _ in range(rng.randint(2, 4))]
+    if rng.random() < 0.5:
+        seq[-1] = seq[0]
+    hist = {"grammar": text, "builds": seq, "probes": probes}
+    try:
+        with pgx.watchdog(60):
+            shared = pgx.grammar(text)
+            got = [build_outcome(shared, cls, kw, probes) for cls, kw in seq]
+            want = [build_outcome(pgx.grammar(text), cls, kw, probes) for cls, kw in seq]
+    except pgx.CaseTimeout:
+        ctx.inconc("construction history timeout")
+        return
+    except pgx.BudgetExceeded:
+        ctx.count("diverged_not_judged")
+        return
+    except Exception as e:  # noqa: BLE001
+        ctx.count("grammar_not_loadable:" + type(e).__name__)
+        return
+    failed = sum(1 for o in want if o[0] == "ctor")
+    ctx.count("build_history.cases")
+    ctx.case((text, json.dumps(seq)), failed >= 1 and len(seq) >= 2, sample=hist)
+    if failed:
+        ctx.count("build_history.with_failure." + why)
+        for o in want:
+            if o[0] == "ctor":
+                ctx.seen("build_failure", o[1])
+    if failed and any(o[0] == "ok" for o in want):
+        ctx.count("build_history.failure_and_success")
+    if got != want:
+        i = [k for k in range(len(seq)) if got[k] != want[k]][0]
+        ctx.violation(
+            "construction-depends-on-earlier-constructions",
+            hist,
+            "construction %d (%s %s) on the shared Grammar ends as %s, on a Grammar of its own as %s" % (i, seq[i][0], seq[i][1], str(got[i])[:200], str(want[i])[:200]),
+        )
+
+
+def unproductive_variant(g, rng):
+    """g plus a rule that derives no terminal string, reachable from a random rule."""
+    t = rng.choice(g.terms)
+    host = rng.choice(g.nts)
+    shape = rng.choice([[("U", ("U", t))], [("U", (t, "U"))], [("U", ("V", t)), ("V", ("U",))], [("U", ("U", t)), ("U", ("U", "U"))]])
+    return cfg.G(list(g.prods) + [(host, ("U",))] + shape, g.start, g.tdefs)
+
+
 def one_grammar(ctx, g, alphabet, n):
     rng = ctx.rng
+    if rng.random() < 0.25:
+        probes = list(cfg.all_strings(alphabet, 2))[:6]
+        if rng.random() < 0.5 and g.terms:
+            gu = unproductive_variant(g, rng)
+            failing_builds(ctx, gu, gu.text(), probes, "unproductive")
+        else:
+            failing_builds(ctx, g, g.text(), probes, "stream")
     layout = rng.random() < 0.3
     text = g.text(extra_rules=WS_LAYOUT.strip(), extra_terms=WS_TERMS) if layout else g.text()
     try:
@@ -444,6 +524,13 @@ def replay(case, ctx):
     mon = LRMonitor()
     mon.install()
     try:
+        if "builds" in case:
+            shared = pgx.grammar(case["grammar"])
+            got = [build_outcome(shared, cls, kw, case["probes"]) for cls, kw in case["builds"]]
+            want = [build_outcome(pgx.grammar(case["grammar"]), cls, kw, case["probes"]) for cls, kw in case["builds"]]
+            if got != want:
+                ctx.violation("construction-depends-on-earlier-constructions", case, "%s vs %s" % (str(got)[:300], str(want)[:300]))
+            return
         got = execute(ctx, case, judge_state=True)
         want = fresh_outcomes(case)
         if got is not None and got != want:
